@@ -2,7 +2,7 @@ PLAN = dict(
     id="C15",
     pkg="c15", level="exploration",
     rule=("One case = honest stream of (draft, rs, payload) built by refmice, ONE mutation (bit flip, truncation, appended suffix, record swap, unit swap / "
-          "duplication / removal, proof replacement, record-size field edit, splice with the stream of a neighbouring payload, or replacement by an "
+          "duplication / removal, proof replacement, record-size field edit, re-framing (record-size field edit combined with a cut), splice with the stream of a neighbouring payload, or replacement by an "
           "arbitrary stream), decoded with the honest digest (or an arbitrary 32-octet digest) through a counting source reader and a cycled sequence of "
           "destination-buffer sizes. Oracle: the concatenated output of successive Reads is at every moment a prefix of the committed payload; a clean "
           "io.EOF only after the whole payload; with an arbitrary digest no octet and no clean EOF; a record-size field of 0 or above the caller's limit "
@@ -27,6 +27,7 @@ PLAN = dict(
     level_note=NOTE_BASE,
     require=[("exh", "truncate-at-record-boundary"), ("exh", "truncate-at-unit-end"), ("exh", "truncate-after-record-octets"),
              ("exh", "truncate-before-full-size-last-record"),
+             ("exh", "reframe-first-unit-as-final-record"), ("rapid", "reframe-first-unit-as-final-record"),
              ("exh", "rejected-at-newdecoder"), ("exh", "error-after-prefix"), ("exh", "error-after-proper-prefix"), ("exh", "clean-eof-full"),
              ("exh", "flip-in-proof"), ("exh", "flip-in-record"), ("exh", "flip-in-size-field"), ("exh", "record-size-out-of-bounds"),
              ("rapid", "truncate-at-record-boundary"), ("rapid", "error-after-proper-prefix"), ("rapid", "clean-eof-full"),
